@@ -131,7 +131,7 @@ Theorem present_redact_build_verify token jwt L ds s1 cseg s3 hdr0 alg (rs : lis
   sd_jwt_parts token = (jwt, L, None) -> jwt_parts_m jwt = Val (s1, cseg, s3) ->
   o_claims O cseg = Ok (blind t) -> o_jwt O jwt = Val (hdr0, blind t) ->
   declared_halg (blind t) = Some alg -> o_hash O alg = H ->
-  jhas "cnf" (blind t) = false ->
+  kb_bound (blind t) = false ->
   NoDup L -> (forall s, In s L -> In (H s) (alldigs t) -> In (H s) (hdigs t)) -> decode_all H (o_dec O) L = Ok ds ->
   Forall (fun x => contains tilde x = false) (jwt :: L) ->
   exists h0, holder_presentation O token = Val h0 /\
@@ -157,8 +157,7 @@ Proof.
   assert (Hparts : sd_jwt_parts (presentation_prefix jwt (sel_of ps rs)) = (jwt, sel_of ps rs, None)).
   { rewrite prefix_is_serialise, sd_jwt_parts_serialise by (assumption || reflexivity). reflexivity. }
   apply (verifier_verify_complete O H enc hash_inj dec_enc t Hwf Hnd Hndh Hheight _ kbpol jwt (sel_of ps rs) ds' hdr0 alg); auto.
-  unfold jhas in Hcnf. unfold jget. destruct (blind t) as [| | | | |kvs]; try reflexivity.
-  destruct (obj_get "cnf" kvs); [discriminate|reflexivity].
+  unfold kb_bound in Hcnf. apply negb_false_iff in Hcnf. destruct (jget "cnf" (blind t)); try discriminate. reflexivity.
 Qed.
 
 (* the key-bound variant: key_binding(aud, alg) before build(); the KB-JWT the holder signs is assumed to verify
@@ -172,7 +171,7 @@ Theorem present_redact_bind_build_verify token jwt L ds s1 cseg s3 hdr0 alg (rs 
   sd_jwt_parts token = (jwt, L, None) -> jwt_parts_m jwt = Val (s1, cseg, s3) ->
   o_claims O cseg = Ok (blind t) -> o_jwt O jwt = Val (hdr0, blind t) ->
   declared_halg (blind t) = Some alg -> o_hash O alg = H ->
-  jhas "cnf" (blind t) = true -> is_null (jget "cnf" (blind t)) = false ->
+  kb_bound (blind t) = true -> is_null (jget "cnf" (blind t)) = false ->
   jget "kty" (jget "cnf" (blind t)) = JStr "RSA" -> jget "e" (jget "cnf" (blind t)) = JStr e -> jget "n" (jget "cnf" (blind t)) = JStr n ->
   NoDup L -> (forall s, In s L -> In (H s) (alldigs t) -> In (H s) (hdigs t)) -> decode_all H (o_dec O) L = Ok ds ->
   Forall (fun x => contains tilde x = false) (jwt :: L) ->
